@@ -17,7 +17,7 @@ CHECKS = {
                 text='After every step of every executed history the harness polls every (offset,count) pair, first/last/next/timestamp polls through the real TCP handlers; TLC checks each answer against the specification operator on the spec state (content compared field by field by the harness). Exhaustive over polls per state, enumerated/simulated over histories and a configuration matrix that moves the same range between cache, buffer, batches and segments.',
                 ref='3.1, 2.3, 7/C02'),
     'C03': dict(engine='loglens', technique='TLA+ spec IggyLog (Restart = identity on log/offsets) + TLC trace validation across in-process clean restarts',
-                text='Restart (graceful shutdown, or flush of every partition followed by an abrupt end) is an action of the script alphabet; the full sweep after the restart and the append that follows must equal the specification state, which a restart leaves unchanged. Disagreements that appear with a restart are attributed to C03.',
+                text='Restart (graceful shutdown, or flush of every partition followed by an abrupt end) is an action of the script alphabet; the full sweep after the restart and the append that follows must equal the specification state, which a restart leaves unchanged. Disagreements that appear with a restart are attributed to C03. A second lens (crash lens, family graceful) ends workloads under {wait, no-wait} x {fsync} x {save threshold, segment size} with a graceful shutdown (System::shutdown, then the process ends) and recovers the directory it leaves: everything that was accepted must be there.',
                 ref='3.1, 7/C03'),
     'C07': dict(engine='loglens', technique='TLA+ spec IggyLog (stored offsets per kind/id/partition) + TLC model checking of the offsets instance + trace validation',
                 text='Two lenses. Log lens: identities consumer 1, consumer 2 / named consumer, group 1 by id and by name on two partitions (and a group life-cycle family: store, delete group, re-create). Group lens: members committing with and without naming the partition. In both, after every step the stored offset and next-poll of every identity on every partition is read and compared with the specification (StoredIsolated is also model-checked as an action property).',
@@ -35,19 +35,19 @@ CHECKS = {
                 text='The specification decides for every command whether it must be refused (duplicate names/ids, unknown targets, rename onto taken names) and what it changes; after every step the sets the server reports (streams, topics, groups, message counts, users, memberships, directories, by-id = by-name lookups) must equal the relations. A panic or closed connection is a violation.',
                 ref='3.4, 7/C06'),
     'C15': dict(engine='topiclens', technique='TLA+ spec IggyTopic (MustRefuse gate, OldestOK, LimitAllowed) + TLC model checking + trace validation with measured sizes',
-                text='Sends at, below and above the limit with deletion of oldest segments on and off, limit updates (also below one segment) and real maintenance passes; each send outcome is compared with the gate evaluated on the size the server reports, each disappearing segment with the clean-up rule.',
+                text='Sends at, below and above the limit with deletion of oldest segments on and off, limit updates (also below one segment) and real maintenance passes; each send outcome is compared with the gate evaluated on the size the server reports, each disappearing segment with the clean-up rule. In limited topics a reported partition / topic size that is not the stored size is a C15 violation as well (the limit is enforced on that figure).',
                 ref='3.3, 7/C15'),
     'C16': dict(engine='topiclens', technique='TLA+ spec IggyTopic (retained counts per partition, sums) + TLC trace validation of the counter hierarchy against polls, projection and bytes on disk',
                 text='After every step partition/topic/stream/stats counts and sizes are compared: partition count = retained messages of the specification, topic = sum of partitions, stream = sum of topics (a sibling topic and stream receive data too), stats = sum of streams and exact entity/segment counts (against the internal projection), sizes = bytes on disk at quiescent points; also across purge, partition deletion, maintenance and restart.',
                 ref='3.3, 7/C16'),
     'C17': dict(engine='topiclens', technique='TLA+ spec IggyTopic (MayLand relation, keyMap, rotation window) + TLC model checking + trace validation',
-                text='Sends by partition id (valid and invalid), by key (seeded lengths 1..255) and balanced, interleaved with partition additions/removals and restarts; the landing partition is read off the full read of every partition and judged relationally: named partition or refusal, fixed partition per key and partition count, P consecutive balanced sends on P distinct partitions, exactly one partition per send.',
+                text='Sends by partition id (valid and invalid), by key (seeded lengths 1..255) and balanced, interleaved with partition additions/removals and restarts; the landing partition is read off the full read of every partition and judged relationally: named partition or refusal, fixed partition per key and partition count, P consecutive balanced sends on P distinct partitions, exactly one partition per send. A family of balanced-only histories (every history of 4, thorough 6, sends / partition additions / removals of 1, 2 or all partitions from 3 partitions) checks the rotation across shrinking and growing topics; a valid send that is refused for another reason than a full topic is a violation.',
                 ref='3.3, 7/C17'),
     'C08': dict(engine='grplens', technique='TLA+ spec IggyGroups (ExclusiveBalanced relation, MayServe rotation window, NextOffsets on the shared group offset) + TLC model checking over every balanced assignment + trace validation with 3 TCP clients',
-                text='Join/leave/dropped connections/partition additions and removals/sends/polls (no partition named, next, auto-commit or manual commit) by three real TCP clients; after every step get_consumer_group and the group offset of every partition are compared with the specification: assignment exclusive and balanced, each poll served from the member\'s own share and in rotation, the offsets returned exactly the ones after the group offset (GroupExactlyOnce is also model-checked as an invariant of a ghost delivery log).',
+                text='Join/leave/dropped connections/partition additions and removals/sends/polls (no partition named, next, auto-commit or manual commit) by three real TCP clients; after every step get_consumer_group and the group offset of every partition are compared with the specification: assignment exclusive and balanced, each poll served from the member\'s own share and in rotation, the offsets returned exactly the ones after the group offset (GroupExactlyOnce is also model-checked as an invariant of a ghost delivery log). Memberships across several topics and streams (the same client in groups of two topics, dropped connections, deletions) are judged by the catalogue lens (families groups and seeded; label CAT.members): a member that is gone must not stay a member anywhere.',
                 ref='3.5, 7/C08'),
     'C09': dict(engine='permlens', technique='TLA+ spec IggyPerm (Granted = largest reading of the documented hierarchy; MonotoneStep/RootAll model-checked) + TLC validation of a decision table computed on the real Permissioner, of an unauthenticated sweep over TCP/HTTP and of op-binding traces',
-                text='(1) Every rule of the real Permissioner evaluated (inside catch_unwind) on a structured set of permission records; TLC checks per line: allow implies Granted (no escalation, scoping: parts for another stream/topic are invisible to Granted), no panic, root allowed everywhere, and that one-step-larger records never revoke. (2) Every SDK call on connections that never authenticated / logged out, over TCP (client-side state forced so the request reaches the server) and HTTP: refused except ping and the declared public HTTP paths, state unchanged. (3) A real user given records through update_permissions on an already open connection performs every operation; performed implies Granted for the part of the record that applies to the operation\'s target; permissions stripped and user deleted on the open connection; root cannot be deleted or stripped.',
+                text='(1) Every rule of the real Permissioner evaluated (inside catch_unwind) on a structured set of permission records; TLC checks per line: allow implies Granted (no escalation, scoping: parts for another stream/topic are invisible to Granted), no panic, root allowed everywhere, and that one-step-larger records never revoke. (2) Every SDK call on connections that never authenticated / logged out, over TCP (client-side state forced so the request reaches the server) and HTTP: refused except ping and the declared public HTTP paths, state unchanged. (3) A real user given records through update_permissions on an already open connection performs every operation; performed implies Granted for the part of the record that applies to the operation\'s target; permissions stripped and user deleted on the open connection; root cannot be deleted or stripped. The operation list includes get_snapshot (granted like the other server-information operations).',
                 ref='3.7, 7/C09'),
     'C10': dict(engine='authlens', technique='TLA+ spec IggyAuth (PasswordValid/TokenValid) + TLC model checking + TLC-generated histories + trace validation with an all-candidate login sweep over TCP and HTTP, session probes and a raw-secret file scan',
                 text='Histories over user creation, status and password changes, token creation/expiry/deletion, logins, logouts, clock ticks, the token cleaner and restarts; after every step a login is attempted with every (user, password) pair and every token ever issued over TCP and HTTP and must succeed iff the specification says the credential is valid now; connections are probed (logout de-authenticates) and every file under the data directory is scanned for every raw password/token.',
@@ -56,19 +56,19 @@ CHECKS = {
                 text='Design: TLC checks AlwaysLoadable for 3 appliers and 2 failed appends and TamperEvident for journals of 1-5 entries. Code: every order of 2-3 concurrent FileState::apply calls is forced through the guarded schedule point, with every set of failing appends (guarded fault switch); the real loader must then load consecutive indices containing every acknowledged command, also after one more command. Tamper: every byte x {bit flips, 0x00, 0xFF}, every truncation, every entry removal/duplication/swap of real plain and encrypted journals; the loader must answer an error, or a prefix only when a whole suffix was lost; never a different history, never a panic.',
                 ref='3.6, 7/C11'),
     'C13': dict(engine='wirelens', technique='TLA+ spec IggyWire (garbage-frame isolation) + TLC-validated SDK-encode/server-decode round trips of every command type with structure-aware boundary values, garbage frames on raw sockets, and the catalogue lens end to end over TCP and HTTP/JSON',
-                text='Agreement is decided where a specification can decide it: (1) every request type the SDK builds, with seeded boundary values, is decoded by the server\'s own decoder to an equal request with the same validity (TLC judges each recorded round trip); (2) malformed frames on one raw connection while a second connection works: error or closed, state and the other connection untouched; (3) responses and HTTP/JSON: every catalogue scenario (names of 1..255 bytes, by id / by name) over both transports must make the SDK-decoded answers equal the specification relations. Fidelity over ALL values is sampled, not exhaustive.',
+                text='Agreement is decided where a specification can decide it: (1) every request type the SDK builds, with seeded boundary values, is decoded by the server\'s own decoder to an equal request with the same validity (TLC judges each recorded round trip); (2) malformed frames on one raw connection while a second connection works: error or closed, state and the other connection untouched; (3) responses and HTTP/JSON: every catalogue scenario (names of 1..255 bytes, by id / by name) over both transports must make the SDK-decoded answers equal the specification relations. Fidelity over ALL values is sampled, not exhaustive. (4) Poll responses: messages with payloads of 1..4096 bytes (boundary lengths), with and without headers of every kind, explicit and server-assigned ids, sent over TCP and HTTP and polled back over both in every window (offset, 1..3) and as a whole, compared with what was sent. Round-trip instances include an empty message inside a non-empty batch (validity must agree).',
                 ref='3.8, 7/C13'),
     'C19': dict(engine='loglens', technique='the data-path and catalogue specifications (IggyLog, IggyCatalogue) with the encryption bit on + TLC trace validation + plaintext scan of every file as an observed variable + restart with a different key',
-                text='Same scenarios as C01-C03/C05 with encryption on: every sweep must still equal the specification (lossless), no payload marker / journalled name may be found in clear in any file after any step, the journal must be replayable after restart with the same key, and after a restart with another key the server must refuse to start or answer errors - never hand out a message.',
+                text='Same scenarios as C01-C03/C05 with encryption on: every sweep must still equal the specification (lossless), no payload marker / journalled name may be found in clear in any file after any step, the journal must be replayable after restart with the same key, and after a restart with another key the server must refuse to start or answer errors - never hand out a message. A start with ANOTHER key must fail (the undecryptable journal is reported as an error), must in no case hand out old data, and the following start with the right key must restore catalogue and data exactly. A second lens (wire lens, family crypto) sweeps the shared encryptor over every length 0..600 (lossless, nothing in clear, another key / truncations / bit flips are errors, never panics) and round-trips encrypted messages of boundary lengths over TCP and HTTP.',
                 ref='7/C19'),
     'C12': dict(engine='mtlens', technique='TLA+ specs IggyLogMT (operational: SendStart/Commit/SendEnd, PollStart/PollRead/PollEnd with a ghost history) and LogMTHistory (history-level statement) + TLC model checking that every history of the model satisfies the statement + TLC validation of histories recorded from multi-threaded stress runs of the real server',
                 text='Design: TLC checks that every complete history of the operational model (2 producers, 1 poller) satisfies the history predicates (total order of whole batches, producer order, polls are runs, no torn batch, no read from the future, acknowledged-implies-visible). Code: 2-4 producers and 1-3 pollers on their own TCP connections against a multi-thread server, with flushes and background saves, under {save threshold} x {segment size} x {cache} x {wait, no-wait}; every call is recorded with global sequence numbers and the recorded history is judged by the same predicates against the final content.',
                 ref='3.2, 7/C12'),
     'C04': dict(engine='crashlens', category='fault_enumeration', technique='TLA+ spec IggyCrash (write order log -> index, crash after any mutation with torn last write, Recover; RecoverIsPrefix model-checked) + enumeration of crash images at every file mutation of real workloads (guarded hook) with torn variants, each recovered by a fresh server and judged by TLC against the recovery postcondition',
-                text='Fault enumeration: for workloads under {wait, no-wait} x {fsync} x {save threshold, segment size} the data directory is frozen after every individual file mutation (log append, index append, consumer-offset write, state-log append, segment creation) and torn variants of the last write are derived; every image is started with a fresh server, read, appended to and read again. TLC checks each recovery: start-up succeeds (a torn trailing state entry may be refused), the partition exposes a dense prefix of the accepted messages containing everything whose write had completed under wait-confirmation, the stored offset is a value that was stored, and the next message continues at the next offset.',
+                text='Fault enumeration: for workloads under {wait, no-wait} x {fsync} x {save threshold, segment size} the data directory is frozen after every individual file mutation (log append, index append, consumer-offset write, state-log append, segment creation) and torn variants of the last write are derived; every image is started with a fresh server, read, appended to and read again. TLC checks each recovery: start-up succeeds (a torn trailing state entry may be refused), the partition exposes a dense prefix of the accepted messages containing everything whose write had completed under wait-confirmation, the stored offset is a value that was stored, and the next message continues at the next offset. The recovered server is then shut down gracefully and started once more: it must serve exactly what it served before (a recovery that leaves the files misaligned shows only then). The image left by the graceful shutdown that ends each workload is recovered as well.',
                 ref='7/C04'),
-    'C20': dict(engine='sdklens', category='model_checking', technique='TLA+ reference algorithm of the SDK consumer (IggySdk: Fetch / Yield / asynchronous commit delivery / interval commit / Drop / Recreate) model-checked for every commit mode x batch size x single|group (InOrderOnce, CommitLeFetched, CommitLeYielded, Complete) + TLC-generated scripts run on the REAL IggyProducer / IggyConsumer through a recording transport, traces validated by TLC (Trace_IggySdk) with the same predicates (IggySdkProps)',
-                text='The consumer algorithm of the SDK is a TLA+ specification whose invariants are the property; TLC explores all interleavings of fetches, yields, background commit deliveries, interval commits, drops and re-creations for all settings. TLC-generated operation scripts (send / take next / drop and re-create), crossed with producer settings (batch size, send interval, default partitioning, all four send calls, client-side encryption) and consumer settings (10 commit modes, batch sizes, strategies, single / group), drive the real IggyProducer and IggyConsumer against an in-process server; the client they talk through records every send_messages, poll_messages and store_consumer_offset, interleaved with the messages the consumer yields; an administrator reads every partition of every fixture topic and the stored offsets after each step. TLC validates each trace: destination and partitioning of every chunk, chunk order and size, nothing stored elsewhere, yields in offset order without gaps or repeats from right after the committed offset, explicit commits never beyond the last yielded message, commit-on-fetch only in the polling modes, the idle consumer has reached the end of its partitions, tracked commits equal the server\'s stored offsets.',
+    'C20': dict(engine='sdklens', category='model_checking', technique='TLA+ reference algorithm of the SDK consumer (IggySdk: Fetch / Yield / asynchronous commit delivery / interval commit / Drop / Recreate) model-checked for every commit mode x batch size x single|group (InOrderOnce, CommitLeFetched, CommitLeYielded, Complete, NoRewindByDropped; three as-found variants kept as negative controls that TLC must refute) + TLC-generated scripts run on the REAL IggyProducer / IggyConsumer through a recording transport, traces validated by TLC (Trace_IggySdk) with the same predicates (IggySdkProps)',
+                text='The consumer algorithm of the SDK is a TLA+ specification whose invariants are the property; TLC explores all interleavings of fetches, yields, background commit deliveries, interval commits, drops and re-creations for all settings. TLC-generated operation scripts (send / take next / drop and re-create), crossed with producer settings (batch size, send interval, default partitioning, all four send calls, client-side encryption) and consumer settings (16 commit modes - the After(...) modes through consume_messages() -, batch sizes, strategies, single / group), drive the real IggyProducer and IggyConsumer against an in-process server; the client they talk through records every send_messages, poll_messages and store_consumer_offset, interleaved with the messages the consumer yields; an administrator reads every partition of every fixture topic and the stored offsets after each step. TLC validates each trace: destination and partitioning of every chunk, chunk order and size, nothing stored elsewhere, yields in offset order without gaps or repeats from right after the committed offset, explicit commits never beyond the last yielded message, commit-on-fetch only in the polling modes, the idle consumer has reached the end of its partitions, a dropped consumer commits nothing more, tracked commits equal the server\'s stored offsets (observed in windows with no commit in flight).',
                 ref='7/C20'),
 }
 
